@@ -30,8 +30,8 @@ RULE = ("(sequential) ALL operation sequences of length <= 5 (thorough: 6) over 
 ASSUMPTIONS = ["awaiting a handle taken while a value was cached returns that value (unspecified after del; accepted)",
                "the getter's own suspensions are the only scheduling points besides lock waits"]
 EXHAUSTIVE = {"quick": False, "thorough": False}
-N_SEQ_RANDOM = {"quick": 4000, "thorough": 100000}
-N_SCEN = {"quick": 220, "thorough": 3500}
+N_SEQ_RANDOM = {"quick": 20000, "thorough": 500000}
+N_SCEN = {"quick": 800, "thorough": 12000}
 DFS_LIMIT = {"quick": 1200, "thorough": 30000}
 RANDOM_RUNS = {"quick": 50, "thorough": 300}
 SEQ_OPS = ["await0", "take0", "awaith_new", "awaith_old", "del0", "failnext", "await1"]
